@@ -40,6 +40,64 @@ def module_result(model: Model, module: str):
     return Analyzer(model, fi).run()
 
 
+class ArrayFolder(Folder):
+    """Folder that also reads the module-level C arrays of the .pyx (as folded by Tables._module_arrays)."""
+
+    def __init__(self, model, leaves, arrays):
+        super().__init__(model, leaves)
+        self.arrays = arrays
+
+    def fold(self, t):
+        # C semantics: a character literal compared / combined with an integer is its code
+        if t[0] in ("cmp", "binop") and len(t) == 4:
+            a, b = super().fold(t[2]) if t[2] not in self.leaves else self.leaves[t[2]], None
+            b = super().fold(t[3]) if t[3] not in self.leaves else self.leaves[t[3]]
+            if isinstance(a, str) and len(a) == 1 and isinstance(b, int):
+                a = ord(a)
+            elif isinstance(b, str) and len(b) == 1 and isinstance(a, int):
+                b = ord(b)
+            else:
+                return super().fold(t)
+            sub = type(self).__new__(type(self))
+            sub.__dict__.update(self.__dict__)
+            sub.leaves = {**self.leaves, ("const", "__a__"): a, ("const", "__b__"): b}
+            return Folder.fold(sub, (t[0], t[1], ("const", "__a__"), ("const", "__b__")))
+        return super().fold(t)
+
+    def f_sub(self, t):
+        base = t[1]
+        if base[0] == "global" and base[2] in self.arrays and t[2][0] != "slice":
+            default, cells = self.arrays[base[2]]
+            i = self.fold(t[2])
+            if i in cells:
+                return cells[i]
+            if default is None:
+                raise CannotFold(f"{base[2]}[{i}] is never initialised")
+            return default
+        return super().f_sub(t)
+
+
+class InlineFolder(ArrayFolder):
+    """ArrayFolder that also evaluates calls of the small pure helpers of the .pyx by folding the callee's own return
+    paths under the argument values (partial evaluation over constants; nothing is executed)."""
+
+    def f_call(self, t):
+        f = t[1]
+        if f[0] == "global" and f[1] == MOD and self.model.has_func(f"{MOD}.{f[2]}"):
+            callee = self.model.func(f"{MOD}.{f[2]}")
+            args = [self.fold(a) for a in t[2]]
+            leaves = {("param", p): a for p, a in zip(callee.params, args)}
+            vals = set()
+            for s_, v, _n in analyze(self.model, callee, merge=False).returns:
+                fo = InlineFolder(self.model, leaves, self.arrays)
+                if all(bool(fo.fold(k)) == fv for k, fv in s_.facts.items()):
+                    vals.add(fo.fold(v))
+            if len(vals) != 1:
+                raise CannotFold(f"{f[2]}{tuple(args)} has {len(vals)} feasible results")
+            return vals.pop()
+        return super().f_call(t)
+
+
 class Tables:
     """Bit tables of the .pyx: module-level tables folded from the initialiser loop, instance tables
     per configuration from _Quoter.__init__."""
@@ -50,15 +108,49 @@ class Tables:
         self.attr_map = self_attr_params(model, f"{MOD}._Quoter.__init__")
         self.init = analyze(model, model.func(f"{MOD}._Quoter.__init__"))
 
+    def _module_arrays(self, r):
+        """Module-level C arrays filled by memset + loops of item stores: name -> (default, {index: value}); folded by
+        enumerating the loop domains (nothing is executed)."""
+        fold = Folder(self.model)
+        arrays = {}
+        for e in r.events:
+            if e.kind == "call" and callee_name(e.value) == "memset" and e.args and e.args[0][0] == "global":
+                try:
+                    arrays[e.args[0][2]] = (fold.fold(e.args[1]), {})
+                except CannotFold:
+                    pass
+            elif e.kind == "store_sub":
+                base = e.base
+                while base[0] == "mut":
+                    base = base[1]
+                if base[0] == "phi":        # the array name inside an initialiser loop
+                    base = ("global", MOD, base[2])
+                if base[0] != "global":
+                    continue
+                default, cells = arrays.setdefault(base[2], (None, {}))
+                elems = sorted({t for x in (e.index, e.value) for t in walk(x) if t[0] == "elem"}, key=show)
+                if len(elems) > 1:
+                    raise AnalysisError(f"{MOD}: module-level store into {base[2]} depends on several loop variables")
+                doms = [need(lambda: fold.fold(elems[0][1]), f"domain of the initialiser of {base[2]}")] if elems else [[None]]
+                for c in doms[0]:
+                    f2 = Folder(self.model, {elems[0]: c} if elems else {})
+                    try:
+                        if all(bool(f2.fold(k)) == v for k, v in e.state.facts.items() if elems and any(t == elems[0] for t in walk(k))):
+                            cells[f2.fold(e.index)] = f2.fold(e.value)
+                    except CannotFold as ex:
+                        raise AnalysisError(f"{MOD}: initialiser of {base[2]} cannot be folded: {ex}")
+        return arrays
+
     def _module_tables(self):
         r = module_result(self.model, MOD)
         tabs = {}
         fold = Folder(self.model)
+        self.module_arrays = self._module_arrays(r)
         for e in r.by_kind("call"):
             name = callee_name(e.value)
             if name == "memset" and e.args and e.args[0][0] == "global":
                 if e.args[1] != ("const", 0):
-                    raise AnalysisError(f"{MOD}: memset of {show(e.args[0])} with a non-zero value")
+                    continue        # not a bit table: a value array, folded in module_arrays
                 tabs[e.args[0][2]] = set()
             elif name == "set_bit" and e.args and e.args[0][0] == "global":
                 tname, idx = e.args[0][2], e.args[1]
@@ -158,6 +250,7 @@ class CQuoter:
         if ch2:
             self._ch2()
         self._skip()
+        self._hex_decode()
         self._utf8_bytes()
         self._advance()
         from .unquoters import read_bounds
@@ -347,12 +440,63 @@ class CQuoter:
                f"hex digit table is {got!r}, expected '0123456789ABCDEF'", where(self.model.func(f"{MOD}._to_hex"), self.model.func(f"{MOD}._to_hex").node),
                sample=got)
 
+    def _hex_decode(self):
+        """The compiled escape decoder accepts exactly the hex digits: _from_hex(c) is the digit's value for 0-9 A-F a-f and
+        -1 for every other code point - also for code points above 255 whose low byte happens to be a digit's code (a
+        table look-up behind a narrowing cast) - and _restore_ch(d1, d2) is 16*d1 + d2 or -1."""
+        ctx = self.ctx
+        rule = "T14"
+        ctx.rule(rule, floor=2, what="the escape decoder of the compiled quoter accepts exactly [0-9A-Fa-f]")
+        q = f"{MOD}._from_hex"
+        fi = self.model.func(q)
+        # every code point below 0x250, plus code points whose low byte (and whose low 16 bits) is a hex digit's code
+        probe = list(range(0x250)) + [0x100 * k + c for k in (1, 2, 4, 0x10, 0xFF, 0x100, 0x1F6, 0x10FF) for c in b"09AFaf" if 0x100 * k + c <= 0x10FFFF] \
+            + [0xFF10, 0xFF19, 0xFF21, 0xFF26, 0xFF41, 0xFF46, 0x10FFFF]
+        got = self.fold_function(q, fi.params[0], probe)
+        bad = []
+        for c, v in zip(probe, got):
+            want = int(chr(c), 16) if chr(c) in "0123456789abcdefABCDEF" else -1
+            if v != want:
+                bad.append(f"U+{c:04X} -> {v} (expected {want})")
+        ctx.instance(rule)
+        ctx.ob(rule, q, f"digit values over {len(probe)} probe code points", not bad,
+               "the hex digit decoder accepts or mis-values: " + "; ".join(bad[:6]) + (" ..." if len(bad) > 6 else "") +
+               " - an escape like '%\u01411' would be taken for %A1 and the input returned as it is", where(fi, fi.node),
+               sample="value for 0-9A-Fa-f, -1 otherwise (including code points above 255)")
+        # _restore_ch: both digits valid -> 16*d1 + d2, else -1
+        q2 = f"{MOD}._restore_ch"
+        f2 = self.model.func(q2)
+        r2 = analyze(self.model, f2, merge=False)
+        arrays = getattr(self.tables, "module_arrays", {})
+        samples = [(ord(a), ord(b)) for a in "0 9 A F a f G g / : @ ` \u0141".split() for b in "0 9 a F G \u0430".split()]
+        bad = []
+        for d1, d2 in samples:
+            leaves = {("param", f2.params[0]): d1, ("param", f2.params[1]): d2}
+            vals = set()
+            for s_, v, _n in r2.returns:
+                fo = InlineFolder(self.model, leaves, arrays)
+                try:
+                    if all(bool(fo.fold(k)) == fv for k, fv in s_.facts.items()):
+                        vals.add(fo.fold(v))
+                except CannotFold as ex:
+                    raise AnalysisError(f"{q2}: cannot fold for ({d1:#x}, {d2:#x}): {ex}")
+            ok1, ok2 = chr(d1) in "0123456789abcdefABCDEF", chr(d2) in "0123456789abcdefABCDEF"
+            want = int(chr(d1) + chr(d2), 16) if ok1 and ok2 else -1
+            vals = {(-1 if v in (-1, 0xFFFFFFFF) else v) for v in vals}
+            if vals != {want}:
+                bad.append(f"({chr(d1)!r}, {chr(d2)!r}) -> {sorted(vals)} (expected {want})")
+        ctx.instance(rule)
+        ctx.ob(rule, q2, f"escape value over {len(samples)} digit pairs", not bad,
+               "the escape decoder mis-values or accepts: " + "; ".join(bad[:6]), where(f2, f2.node),
+               sample="16*d1 + d2 for two hex digits, -1 otherwise")
+
     def fold_function(self, qual, param, domain):
         """Table of a pure arithmetic helper over a tiny finite domain (partial evaluation of its paths)."""
-        r = analyze(self.model, self.model.func(qual))
+        r = analyze(self.model, self.model.func(qual), merge=False)     # tiny helpers: every path kept apart
         out = []
+        arrays = getattr(self.tables, "module_arrays", {}) if hasattr(self, "tables") else {}
         for c in domain:
-            f = Folder(self.model, {("param", param): c})
+            f = ArrayFolder(self.model, {("param", param): c}, arrays)
             vals = []
             for s, v, _ in r.returns:
                 try:
